@@ -39,6 +39,8 @@ CFGS = {
     "lci": ((False, False, False), (False, True, False)),   # mixed: local case-insensitive, remote case-sensitive
     "rci": ((False, True, False), (False, False, False)),   # mixed: remote case-insensitive
     "plci": ((True, False, False), (False, True, False)),
+    # id-style accounts that report folder deletions WITHOUT an object id (matched by path in the event manager)
+    "ot": ((False, True, False, {"oidless_folder_trash_events": True}), (False, True, False, {"oidless_folder_trash_events": True})),
 }
 
 BASES = {
@@ -72,6 +74,10 @@ class HarnessError(Exception):
 class BaseSyncFailed(HarnessError):
     """the engine could not even mirror the base tree under the fair schedule: reported as a violation of the
     property being checked (every engine property presupposes it), not as a harness failure"""
+
+
+class PreFailed(HarnessError):
+    """the preparatory phase of a phased job did not end in a converged quiet state: the job is gated out"""
 
 
 class DictStorage(S.Storage):
@@ -154,9 +160,15 @@ class World:
         self.fault = None               # callable(side, method, phase, args) or None
 
         if provs is None:
-            (lo, lc, lf), (ro, rc, rf) = self.cfg
-            l = MockProvider(lo, lc, filter_events=lf)
-            r = MockProvider(ro, rc, filter_events=rf)
+            (lo, lc, lf), (ro, rc, rf) = self.cfg[0][:3], self.cfg[1][:3]
+            lkw = dict(self.cfg[0][3]) if len(self.cfg[0]) > 3 else {}
+            rkw = dict(self.cfg[1][3]) if len(self.cfg[1]) > 3 else {}
+            hf = {}
+            if self.opts.get("remote_hash") == "sha256":        # the two accounts hash content differently (any real pair does)
+                import hashlib
+                hf = {"hash_func": lambda b: hashlib.sha256(b).digest()}
+            l = MockProvider(lo, lc, filter_events=lf, **lkw)
+            r = MockProvider(ro, rc, filter_events=rf, **dict(rkw, **hf))
             l.connection_id = "L"
             r.connection_id = "R"
             l.connect({"k": "v"})
@@ -171,13 +183,34 @@ class World:
         self.storage = storage
         if storage is None and self.opts.get("storage"):
             self.storage = DictStorage()
+        if self.opts.get("unsynced_base") and not skip_base:
+            # first-ever start: the content is there BEFORE an engine exists (its event cursor will start at "latest", so
+            # only the initial walk can find it)
+            base = job.get("base", "B1")
+            base = BASES[base] if isinstance(base, str) else base
+            for s_, p_ in enumerate(self.provs):
+                p_.mkdirs(ROOTS[s_])
+            for op in base:
+                if not self._raw_user(int(self.opts.get("base_side", 0)), op):
+                    raise HarnessError("base op failed %r" % (op,))
+            for p_ in self.provs:
+                for _ in p_.events():       # a fresh client starts at the latest cursor
+                    pass
         self._build_cs()
         if not skip_base:
             base = job.get("base", "B1")
             base = BASES[base] if isinstance(base, str) else base
-            for op in base:
+            for op in ([] if self.opts.get("unsynced_base") else base):
                 if not self._raw_user(int(self.opts.get("base_side", 0)), op):
                     raise HarnessError("base op failed %r" % (op,))
+            if self.opts.get("unsynced_base"):
+                # first-ever start: the content exists on one side before the engine has run at all (found by the walk)
+                self.user_log.clear()
+                self.written.clear()
+                self.destroyed.clear()
+                self.unsynced_base_contents = frozenset(v for v in self.tree(int(self.opts.get("base_side", 0))).values()
+                                                        if v is not None)
+                return
             et = self.opts.pop("explicit_time", None)       # the base tree is synchronised with the whole-epoch clock
             aging = self.cs.aging
             if et is not None:
@@ -194,6 +227,19 @@ class World:
                 tl, tr = self.tree(0), self.tree(1)
                 if tl != tr:
                     raise BaseSyncFailed("base tree not in sync: %r %r" % (tl, tr))
+            # phased jobs: a first history (both users act, then the engine runs to quiescence under the fair schedule)
+            # whose end state - including whatever bookkeeping it left behind - is the start state of the exploration
+            pre = job.get("pre")
+            if pre:
+                for side in (0, 1):
+                    for op in pre[side]:
+                        self._raw_user(side, op)
+                try:
+                    self.settle()
+                except NoQuiescence as e:
+                    raise PreFailed("pre phase: %s" % e)
+                if not trees_equal_mod_conflicted(self.tree(0), self.tree(1)):
+                    raise PreFailed("pre phase ends diverged")
             # base is not part of the observed history
             self.calls.clear()
             self.engine_writes.clear()
